@@ -135,6 +135,7 @@ string *parse_command_adjectiv_id_list() { return ({ }); }
 // applied by sprintf("%O") through safe_apply: a callback that never returns on its own
 string object_name(object ob) { while (1) ; return "x"; }
 #endif
+int valid_link(string from, string to) { rec("VL " + from + " " + to); return 1; }
 int valid_bind(object binder, object old_owner, object new_owner) { return 1; }
 void log_error(string file, string msg) { rec("LOGERR " + file + " " + msg); }
 
